@@ -696,8 +696,11 @@ def generate(ctx, quick, rng, gen_stats):
         # fourth context variation: the same request as a FILE UPLOAD (field u_<ty>(a: .., file: $file), one file attached):
         # the engine sends a multipart request through Source.LoadWithFiles; Denotes(case) does not depend on it
         up = v["ty"] in UP_TYPES and rng.random() < 0.3
-        yield {"ty": v["ty"], "expr": expr, "vars": vs, "tw": v["tw"], "comp": comp, "up": up, "stratum": "val", "form": "-",
-               "pos": comp + ("+upload" if up else "")}
+        # fifth context variation (seeding round 3, C15-8): a sibling field carrying the main literal's TEXT as a string
+        # literal of the same type, placed before the main field; the harness skips it when the text needs escaping
+        pre = (not up) and v["ty"] in ("Big", "ID", "LBig") and rng.random() < 0.5
+        yield {"ty": v["ty"], "expr": expr, "vars": vs, "tw": v["tw"], "comp": comp, "up": up, "pre": pre, "stratum": "val", "form": "-",
+               "pos": comp + ("+upload" if up else "") + ("+pre" if pre else "")}
 
 
 UP_TYPES = {"Int", "String", "ID", "In", "LInt"}
@@ -953,7 +956,7 @@ def run(ctx):
         for c in generate(ctx, quick, rng, gen_stats):
             c.setdefault("comp", "none")
             c.setdefault("up", False)
-            h = lib.sha([c["ty"], c["expr"], c["vars"], c["tw"], c["comp"], c["up"]])
+            h = lib.sha([c["ty"], c["expr"], c["vars"], c["tw"], c["comp"], c["up"], c.get("pre", False)])
             if h in seen:
                 continue
             seen.add(h)
